@@ -491,7 +491,13 @@ impl Scenario for OdbRepack {
             }
         }
         for (sig, detail) in sh.violations.lock().unwrap().iter() {
-            rep.violate(P, sig.clone(), detail.clone());
+            // with too few slots even the content can be another object's (a slot that still serves a reader is given to
+            // another index): the worst face of the slots-short finding, kept under a signature of its own
+            if !slots_sufficient && sig.starts_with("odb wrong-content") {
+                rep.violate(P, "odb slots-short wrong-content".to_string(), format!("with {slots} slots: {detail}"));
+            } else {
+                rep.violate(P, sig.clone(), detail.clone());
+            }
         }
         let lk = sh.lookups.lock().unwrap().clone();
         for (k, v) in &lk {
